@@ -38,11 +38,20 @@ Definition set_reg (c : ctx_table) (rf : regfile) (n : name) (v : Z) : outcome (
   | Some l => if loc_ok l then Ret (Some (upd rf l v)) else Panic 2
   | None => Ret None
   end.
-(* memoize_register; default_memoize_register returns REGISTERS[position(reg)], i.e. reg *)
+(* memoize_register; default_memoize_register returns REGISTERS[position(|val| <cmp>(val, reg))]: the
+   first REGISTERS entry the generated comparison accepts (with `==` that is reg itself) *)
+Definition lower (b : Z) : Z := if (65 <=? b) && (b <=? 90) then b + 32 else b.
+Fixpoint name_eqb_nocase (a b : name) : bool :=
+  match a, b with
+  | [], [] => true
+  | x :: a', y :: b' => (lower x =? lower y) && name_eqb_nocase a' b'
+  | _, _ => false
+  end.
+Definition memo_eqb (cmp : Z) (r n : name) : bool := if cmp =? 0 then name_eqb r n else name_eqb_nocase r n.
 Definition memoize (c : ctx_table) (n : name) : option name :=
   match find_arm n (ct_memo c) with
   | Some m => Some m
-  | None => if mem n (ct_registers c) then Some n else None
+  | None => find (fun r => memo_eqb (ct_memo_cmp c) r n) (ct_registers c)
   end.
 
 (* MinidumpContextValidity; Some carries a HashSet: the list is its iteration order *)
